@@ -249,3 +249,105 @@ def infeasible_get_none(p):
                     affine.canon_coll(t[3][1]) == affine.canon_coll(g[1]):
                 return True
     return False
+
+
+# ---- role-based discovery of private helpers (never by their names) ---------------------------------------
+
+def _decls(f):
+    return [mir.callee_decl(t) or '' for b, t in mir.calls(f)]
+
+
+def orientation_fns(F):
+    """functions computing a ring's orientation: a local, non-closure fn whose body sums over `windows(..)` of a slice"""
+    out = []
+    for f in F.identity_fns():
+        if f.get("kind") == "Closure":
+            continue
+        d = _decls(f)
+        if any(x.endswith("::windows") for x in d) and any(x.endswith("Iterator::sum") for x in d):
+            out.append(f)
+    return out
+
+
+def closedness_fns(F):
+    """functions deciding whether a ring is closed: a local, non-closure fn that takes both `first()` and `last()` of a slice"""
+    out = []
+    for f in F.identity_fns():
+        if f.get("kind") == "Closure":
+            continue
+        d = _decls(f)
+        if any(x.endswith("]>::first") or x.endswith("::first") for x in d) and any(x.endswith("::last") for x in d) \
+                and not any(x.endswith("::push") for x in d):
+            out.append(f)
+    return out
+
+
+def fn_refs(f):
+    """every function referenced by f's MIR: callees of call terminators and fn items used as values (resolved def first)"""
+    out = []
+
+    def walk(o):
+        if isinstance(o, dict):
+            fn = o.get("fn")
+            if isinstance(fn, dict) and "def" in fn:
+                r = fn.get("resolved")
+                out.append(r["def"] if r else fn["def"])
+            for v in o.values():
+                walk(v)
+        elif isinstance(o, list):
+            for v in o:
+                walk(v)
+    for b in f["blocks"]:
+        if not b.get("cleanup"):
+            walk(b)
+    return out
+
+
+def local_fn(F, d):
+    return F.identity(d) or F.identity(d.split('::<')[0]) or F.identity(d.split('<')[0].rstrip(':'))
+
+
+def reachable_defs(F, f, depth=4):
+    """local functions reachable from f (calls, fn items handed on, closures), bounded depth; returns def paths"""
+    seen = set()
+    todo = [(f, 0)]
+    while todo:
+        g, d = todo.pop()
+        nxt = [local_fn(F, r) for r in fn_refs(g)]
+        nxt += [c for c in F.identity_fns() if c["def"].startswith(g["def"] + "::{closure")]
+        for h in nxt:
+            if h is None or h["def"] in seen:
+                continue
+            seen.add(h["def"])
+            if d < depth:
+                todo.append((h, d + 1))
+    return seen
+
+
+def index_entry_fields(F):
+    """(offset field, length field) of the in-memory index entry, by role: the fields of the aggregate pushed per entry by the
+    index parser that receive the first and the second big-endian i32 read (ESRI: offset, then content length)."""
+    for f in F.identity_fns():
+        if f.get("kind") == "Closure":
+            continue
+        d = _decls(f)
+        if not any(x.endswith("::push") for x in d) or not any("read_i32" in x for x in d):
+            continue
+        try:
+            ps, _ = run_fn(F, f, inline=lambda g, t: False)
+        except Exception:
+            continue
+        for p in ps:
+            for lp in [e for e in p.eff if e[0] == 'loop']:
+                for b in lp[3]:
+                    rd = [e for e in b['eff'] if e[0] == 'io' and e[1] == 'read']
+                    pushes = [e for e in b['eff'] if e[0] == 'push']
+                    if len(rd) == 2 and len(pushes) == 1 and absint.is_agg(pushes[0][2]) and \
+                            all(e[3].get('endian') == 'BigEndian' for e in rd):
+                        names = {}
+                        for k, v in pushes[0][2][4]:
+                            names[v] = k
+                        a, b2 = names.get(rd[0][-1]), names.get(rd[1][-1])
+                        if a and b2:
+                            return a, b2
+    return None, None
